@@ -139,6 +139,15 @@ CLAIMED = {
             'covariance feeding the paired-t variance; Result.get_means for 2-4 dimensional evaluation arrays.',
             'numerical values of the t distribution are trusted (only its contract is used); Wilcoxon rank-sum and bootstrap percentile '
             'tests outside; dof must be a concrete number'),
+    'C18': ('DESIGN.md 4/C18',
+            'Real make_dataset / make_signal / make_design executed symbolically: the model RDM is the squared distances of symbolic points '
+            '(embeddable by construction), signal and noise are symbolic, np.random.uniform returns fresh reals, norm.ppf is an uninterpreted '
+            'atom and scipy.linalg.ldl is the exact unpivoted LDL^T; z3 proves that calc_rdm(euclidean) by condition of the simulated data '
+            'equals signal * model RDM (2 conditions x 2-3|5 channels with symbolic draws; 3 conditions x 4 channels for one fixed orthogonal '
+            'draw), that data_0 - data_1 = (ppf(e_0)-ppf(e_1))*sqrt(noise)[@chol] under the same-signal option, that descriptors carry the '
+            'condition vector and parameters, that the default draws a fresh signal per simulation; make_design checked concretely.',
+            'bounded to 2-3 conditions (>=3 conditions with symbolic draws and >=4 conditions: z3 unknown); LDL pivots assumed >= 2e-6; LAPACK '
+            'pivoting, signal_cov_channel, noise_cov_trial, n_channel < n_cond and IEEE rounding outside; ldl model and ppf atom are stubs'),
     'C19': ('DESIGN.md 4/C19',
             'Real _get_searchlight_neighbors run with a SYMBOLIC radius on every (sampled|every) centre of small volumes: the comparisons '
             'against the radius fork into the finitely many radius classes and on each path the returned voxel set is compared with '
@@ -173,8 +182,6 @@ CLAIMED = {
 NA = {
     'C16': 'save/load lives in h5py (HDF5 C library) and pickle: file I/O behind FFI cannot be executed symbolically; '
            'object<->dict conversion alone is not the property (DESIGN.md "Not applicable")',
-    'C18': 'core claim runs through LAPACK pivoted LDL, np.linalg and scipy.stats.norm.ppf and only holds to ~1e-6 in floats; '
-           'a floating-point tolerance claim that exact-real symbolic execution cannot state (DESIGN.md "Not applicable")',
 }
 _unused = ('the property is about the compiled Cython kernel similarity.pyx: it can only be reached by transpiling the .pyx to Python '
              '(planned in DESIGN.md); the transpiler was not built in the available time and no Cython is installed to rebuild or '
